@@ -11,3 +11,9 @@ Theorem C08_regroup_invariant : forall rho d1 d2,
   pos rho d1 = pos rho d2.
 Proof. exact regroup_invariant. Qed.
 Print Assumptions C08_regroup_invariant.
+
+(* consistently renaming axes leaves every element where it is *)
+Theorem C08_rename_invariant : forall f rho dims,
+  (forall a b, f a = f b -> a = b) -> pos (erename f rho) (map (prename f) dims) = pos rho dims.
+Proof. exact pos_rename. Qed.
+Print Assumptions C08_rename_invariant.
